@@ -716,6 +716,131 @@ theorem planItems_unknown (opts : Dict α) (items : List DispItem)
         obtain ⟨e, he⟩ := ih h
         exact ⟨e, by simp [bind, Except.bind, he]⟩
 
+/-! ### flags only grow, and an accepted dispatch has set the family of every setter it called -/
+
+theorem execStmt_flags_mono (opts : Dict α) (cd : Option (Dict α)) (s s' : ScState α) (st : Stmt)
+    (h : execStmt opts cd s st = .ok s') : ∀ f ∈ s.flags, f ∈ s'.flags := by
+  intro f hf
+  rw [execStmt_flags opts cd s s' st h]
+  exact List.mem_append_right _ hf
+
+theorem execBody_flags_mono (opts : Dict α) (cd : Option (Dict α)) (body : List Stmt) (s s' : ScState α)
+    (h : execBody opts cd s body = .ok s') : ∀ f ∈ s.flags, f ∈ s'.flags := by
+  induction body generalizing s with
+  | nil => simp [execBody] at h; subst h; exact fun f hf => hf
+  | cons st t ih =>
+    simp only [execBody] at h
+    obtain ⟨s1, h1, h2⟩ := bind_eq_ok h
+    exact fun f hf => ih s1 h2 f (execStmt_flags_mono opts cd s s1 st h1 f hf)
+
+theorem execAction_flags_mono (opts : Dict α) (cd : Option (Dict α)) (s s' : ScState α) (a : Action)
+    (h : execAction opts cd s a = .ok s') : ∀ f ∈ s.flags, f ∈ s'.flags := by
+  cases a with
+  | call n =>
+    simp only [execAction] at h
+    split at h
+    · exact execBody_flags_mono opts cd _ s s' h
+    · cases h
+  | stmt st => exact execStmt_flags_mono opts cd s s' st h
+  | exit => cases h
+
+theorem execActions_flags_mono (opts : Dict α) (cd : Option (Dict α)) (acts : List Action) (s s' : ScState α)
+    (h : execActions opts cd s acts = .ok s') : ∀ f ∈ s.flags, f ∈ s'.flags := by
+  induction acts generalizing s with
+  | nil => simp [execActions] at h; subst h; exact fun f hf => hf
+  | cons a t ih =>
+    simp only [execActions] at h
+    obtain ⟨s1, h1, h2⟩ := bind_eq_ok h
+    exact fun f hf => ih s1 h2 f (execAction_flags_mono opts cd s s1 a h1 f hf)
+
+/-- actions that ran to completion contain no `sys.exit()`, and every setter they call exists and has
+    left its family set -/
+theorem execActions_ok (opts : Dict α) (cd : Option (Dict α)) (acts : List Action) (s s' : ScState α)
+    (hwf : ∀ i ∈ setters, wfSetter i = true)
+    (h : execActions opts cd s acts = .ok s') :
+    Action.exit ∉ acts ∧ ∀ n, Action.call n ∈ acts → ∃ i, findSetter n = some i ∧ ∀ f ∈ i.family, f ∈ s'.flags := by
+  induction acts generalizing s with
+  | nil => exact ⟨by simp, fun n hn => by cases hn⟩
+  | cons a t ih =>
+    simp only [execActions] at h
+    obtain ⟨s1, h1, h2⟩ := bind_eq_ok h
+    obtain ⟨hx, hc⟩ := ih s1 h2
+    constructor
+    · intro hm
+      rcases List.mem_cons.mp hm with h | h
+      · subst h; cases h1
+      · exact hx h
+    · intro n hn
+      rcases List.mem_cons.mp hn with h | h
+      · subst h
+        simp only [execAction] at h1
+        cases hf : findSetter n with
+        | none => simp [hf] at h1
+        | some i =>
+          simp only [hf] at h1
+          have hi : i ∈ setters := List.mem_of_find?_eq_some hf
+          obtain ⟨_, hb⟩ := applySetter_ok opts cd s s1 i (hwf i hi) h1
+          exact ⟨i, rfl, fun f hfam => execActions_flags_mono opts cd t s1 s' h2 f ((hb f).mpr (Or.inl hfam))⟩
+      · exact hc n h
+
+theorem pickBranch_mem (v : Val α) (brs : List Branch) (b : Branch) (h : pickBranch v brs = some b) : b ∈ brs := by
+  cases v <;> simp [pickBranch] at h
+  exact List.mem_of_find?_eq_some h
+
+theorem execItem_flags_mono (opts : Dict α) (cd : Option (Dict α)) (s s' : ScState α) (it : DispItem)
+    (h : execItem opts cd s it = .ok s') : ∀ f ∈ s.flags, f ∈ s'.flags := by
+  cases it with
+  | family o brs d =>
+    simp only [execItem] at h
+    split at h
+    · cases h
+    · split at h
+      · exact execActions_flags_mono opts cd _ s s' h
+      · split at h
+        · cases h
+        · exact execActions_flags_mono opts cd _ s s' h
+  | stmt st => exact execStmt_flags_mono opts cd s s' st h
+  | override ov =>
+    intro f hf
+    rw [(applyOverride_frame opts s s' ov h).1]; exact hf
+
+theorem execItems_flags_mono (opts : Dict α) (cd : Option (Dict α)) (items : List DispItem) (s s' : ScState α)
+    (h : execItems opts cd s items = .ok s') : ∀ f ∈ s.flags, f ∈ s'.flags := by
+  induction items generalizing s with
+  | nil => simp [execItems] at h; subst h; exact fun f hf => hf
+  | cons it t ih =>
+    simp only [execItems] at h
+    obtain ⟨s1, h1, h2⟩ := bind_eq_ok h
+    exact fun f hf => ih s1 h2 f (execItem_flags_mono opts cd s s1 it h1 f hf)
+
+/-- an accepted dispatch: for every option family (without catch-all branch) one of its branches was
+    taken, it does not exit, and every setter it calls has left its family set at the end -/
+theorem execItems_family (opts : Dict α) (cd : Option (Dict α)) (items : List DispItem) (s s' : ScState α)
+    (hwf : ∀ i ∈ setters, wfSetter i = true)
+    (h : execItems opts cd s items = .ok s') (o : String) (brs : List Branch)
+    (hm : .family o brs none ∈ items) :
+    ∃ b ∈ brs, Action.exit ∉ b.actions ∧
+      ∀ n, Action.call n ∈ b.actions → ∃ i, findSetter n = some i ∧ ∀ f ∈ i.family, f ∈ s'.flags := by
+  induction items generalizing s with
+  | nil => cases hm
+  | cons it t ih =>
+    simp only [execItems] at h
+    obtain ⟨s1, h1, h2⟩ := bind_eq_ok h
+    rcases List.mem_cons.mp hm with hh | hh
+    · subst hh
+      simp only [execItem] at h1
+      split at h1
+      · cases h1
+      · rename_i v hv
+        split at h1
+        · rename_i b hb
+          obtain ⟨hx, hc⟩ := execActions_ok opts cd b.actions s s1 hwf h1
+          refine ⟨b, pickBranch_mem v brs b hb, hx, fun n hn => ?_⟩
+          obtain ⟨i, hi, hfam⟩ := hc n hn
+          exact ⟨i, hi, fun f hf => execItems_flags_mono opts cd t s1 s' h2 f (hfam f hf)⟩
+        · cases h1
+    · exact ih s1 h2 hh
+
 /-! ### choosing first and running afterwards is the same as the interleaved code -/
 
 theorem execSteps_append (opts : Dict α) (cd : Option (Dict α)) (a b : List Step) (s : ScState α) :
